@@ -291,6 +291,8 @@ def write_evidence(pid, tier, seed, mod, total, n_viol, kf_hits, extra_assumptio
         "wall_s": round(wall, 2),
         "violations": n_viol,
     }
+    if os.environ.get("VERIF_NO_EVIDENCE"):
+        return
     os.makedirs(os.path.join(VERIF, "evidence"), exist_ok=True)
     with open(os.path.join(VERIF, "evidence", pid + ".json"), "w") as f:
         json.dump(doc, f, indent=1, sort_keys=True, default=str)
@@ -372,6 +374,10 @@ def main(argv):
     if not argv:
         sys.stdout.write(__doc__ + "\n")
         return 2
+    if argv[0] == "--digests":
+        import selftest
+
+        return selftest.digests_main(argv[1:])
     if argv[0] == "selftest-determinism":
         import selftest
 
